@@ -101,6 +101,35 @@ Theorem ltf8_encode_any_buffer :
 Proof. exact ltf8_Encode_any. Qed.
 Print Assumptions ltf8_encode_any_buffer.
 
+(** The round trip through a destination of any sufficient length (the
+    statement of itf8_roundtrip / ltf8_roundtrip without the explicit 5 / 9
+    byte prefix): Encode returns Len, keeps the length of the destination,
+    changes only the first Len bytes, these are the specified encoding, and
+    followed by anything they decode to the value. *)
+Theorem itf8_roundtrip_any_buffer :
+  forall v buf rest,
+    - 2^31 <= v < 2^31 -> all_bytes rest = true -> itf8_spec_len (v mod 2^32) <= zlen buf ->
+    exists out,
+      itf8_Encode buf v = Ok (itf8_spec_len (v mod 2^32), out) /\
+      zlen out = zlen buf /\
+      skipn (Z.to_nat (itf8_spec_len (v mod 2^32))) out = skipn (Z.to_nat (itf8_spec_len (v mod 2^32))) buf /\
+      itf8_canon (firstn (Z.to_nat (itf8_spec_len (v mod 2^32))) out) = itf8_spec_encode v /\
+      itf8_Decode (firstn (Z.to_nat (itf8_spec_len (v mod 2^32))) out ++ rest) = Ok (v, itf8_spec_len (v mod 2^32), true).
+Proof. exact itf8_roundtrip_any. Qed.
+Print Assumptions itf8_roundtrip_any_buffer.
+
+Theorem ltf8_roundtrip_any_buffer :
+  forall v buf rest,
+    - 2^63 <= v < 2^63 -> all_bytes rest = true -> ltf8_spec_len (v mod 2^64) <= zlen buf ->
+    exists out,
+      ltf8_Encode buf v = Ok (ltf8_spec_len (v mod 2^64), out) /\
+      zlen out = zlen buf /\
+      skipn (Z.to_nat (ltf8_spec_len (v mod 2^64))) out = skipn (Z.to_nat (ltf8_spec_len (v mod 2^64))) buf /\
+      firstn (Z.to_nat (ltf8_spec_len (v mod 2^64))) out = ltf8_spec_encode v /\
+      ltf8_Decode (firstn (Z.to_nat (ltf8_spec_len (v mod 2^64))) out ++ rest) = Ok (v, ltf8_spec_len (v mod 2^64), true).
+Proof. exact ltf8_roundtrip_any. Qed.
+Print Assumptions ltf8_roundtrip_any_buffer.
+
 (** Every spelling of a value that the specification allows for its length
     class (any high nibble in a fifth byte), followed by anything, decodes to
     the value. *)
